@@ -132,7 +132,9 @@ func (f *Frame) execInstr(ins ssa.Instruction, st *State, b *ssa.BasicBlock, idx
 	case *ssa.Defer:
 		st.defers = append(st.defers, deferEntry{guard: True, call: ins, frame: f})
 	case *ssa.Go:
+		f.atPoint(f.callOrd[ins]+" before", st, b, idx)
 		f.execGo(ins, st)
+		f.atPoint(f.callOrd[ins], st, b, idx+1)
 	case *ssa.MakeClosure:
 		var env []Val
 		for _, bnd := range ins.Bindings {
